@@ -438,3 +438,170 @@ fn conn_run(a: &Args) -> Args {
     let _ = req_obs;
     res
 }
+
+// ------------------------------------------------------------------------------------------------
+// writers mode (C10): several StreamWriters (and the request's own reply flushing) polled in a
+// scripted order inside one handler, over a transport that splits / delays writes.
+//
+// writers <cfg> <wscript> <order> <wire> <writer>...
+//   cfg    = [buffer_size, max_conns, vectored]
+//   order  = per step: index of the writer to poll once, or 99 = poll the request's read side once
+//            (which flushes pending parser replies through the same lock); afterwards round-robin
+//   wire   = bytes the client sends (one ungated segment; then the client stays silent)
+//   writer = [stream type, clone_of (999 = fresh output_stream, else index of an earlier writer), data...]
+// observation: [outcome, polls], transport log, per step [index, 0 pending / 1 ready / 2 already done / 3 error]
+// ------------------------------------------------------------------------------------------------
+pub fn dispatch_writers(mode: &str, a: &Args) -> Option<Args> {
+    if mode == "writers" { Some(writers(a)) } else { None }
+}
+
+type WFut = Pin<Box<dyn Future<Output = io::Result<()>> + Send>>;
+
+fn writers(a: &Args) -> Args {
+    use fastcgi_server::async_io::StreamWriter;
+    let cfgv = arg(a, 0);
+    let g = |i: usize| cfgv.get(i).copied().unwrap_or(0);
+    let cfg = config(g(0) as usize, g(1).max(1) as usize);
+    let wire = bytes(&arg(a, 3));
+    let world = Arc::new(Mutex::new(World {
+        rscript: Vec::new(), ri: 0, wscript: arg(a, 1), wi: 0,
+        segs: vec![(0, 0, wire.len()), (99, 0, 8)], seg_i: 0, seg_off: 0,
+        wire: { let mut w = wire.clone(); w.extend_from_slice(&[1, 1, 0, 9, 0, 8, 0, 0]); w }, pos: 0,
+        wlog: Vec::new(), blocked: false, vectored: g(2) != 0,
+    }));
+    let order = arg(a, 2);
+    let specs: Vec<Vec<u128>> = a.iter().skip(4).cloned().collect();
+    let steps: Arc<Mutex<Args>> = Arc::new(Mutex::new(Vec::new()));
+    let mut head: Vec<u128> = Vec::new();
+    let r = catch_unwind(AssertUnwindSafe(|| {
+        let flag = Arc::new(Flag(AtomicBool::new(false)));
+        let waker = Waker::from(flag.clone());
+        let mut cx = Context::from_waker(&waker);
+        let runner = cfg.clone().async_runner();
+        let token = {
+            let fut = runner.get_token();
+            futures_util::pin_mut!(fut);
+            match fut.poll(&mut cx) {
+                Poll::Ready(t) => t,
+                Poll::Pending => panic!("no token"),
+            }
+        };
+        let handler = mk_writers_handler(specs, order, steps.clone());
+        let mut task: Pin<Box<dyn Future<Output = ()>>> =
+            Box::pin(token.run(Reader(world.clone()), Writer(world.clone()), handler));
+        let mut polls: u128 = 0;
+        let outcome;
+        loop {
+            polls += 1;
+            flag.0.store(false, Ordering::SeqCst);
+            if task.as_mut().poll(&mut cx).is_ready() {
+                outcome = 0;
+                break;
+            }
+            if !flag.0.load(Ordering::SeqCst) || polls > 100_000 {
+                outcome = 1;
+                break;
+            }
+        }
+        head = vec![outcome, polls];
+        let _: Option<StreamWriter<Writer>> = None;
+    }));
+    if r.is_err() {
+        head = vec![PANIC];
+    }
+    let w = world.lock().unwrap_or_else(|e| e.into_inner());
+    let mut res = vec![head, nums(&w.wlog)];
+    res.extend(steps.lock().unwrap_or_else(|e| e.into_inner()).iter().cloned());
+    res
+}
+
+fn mk_writers_handler(
+    specs: Vec<Vec<u128>>,
+    order: Vec<u128>,
+    steps: Arc<Mutex<Args>>,
+) -> impl for<'a, 'b> FnMut(&'a mut Request<'b, Reader, Writer>) -> BoxFuture<'a, io::Result<ExitStatus>> {
+    move |req| {
+        let specs = specs.clone();
+        let order = order.clone();
+        let steps = steps.clone();
+        Box::pin(async move {
+            // build the writers (clones share everything but their per-record state) and their write_all futures
+            let mut ws: Vec<Option<fastcgi_server::async_io::StreamWriter<Writer>>> = Vec::new();
+            for s in &specs {
+                let st = stype(s[0]);
+                let w = if s.get(1).copied().unwrap_or(999) == 999 {
+                    req.output_stream(st)
+                } else {
+                    // a clone writes to the same stream as its original
+                    ws[s[1] as usize].as_ref().expect("original").clone()
+                };
+                ws.push(Some(w));
+            }
+            let mut futs: Vec<Option<WFut>> = Vec::new();
+            for (i, s) in specs.iter().enumerate() {
+                let mut w = ws[i].take().expect("writer");
+                let data: Vec<u8> = s.iter().skip(2).map(|&x| x as u8).collect();
+                futs.push(Some(Box::pin(async move {
+                    let r = w.write_all(&data).await;
+                    drop(w);
+                    r
+                })));
+            }
+            let mut oi = 0usize;
+            let mut rr = 0usize;
+            let mut idle_rounds = 0usize;
+            let mut err: Option<io::Error> = None;
+            std::future::poll_fn(|cx| {
+                let n = futs.len();
+                if futs.iter().all(Option::is_none) {
+                    return Poll::Ready(());
+                }
+                idle_rounds += 1;
+                assert!(idle_rounds < 200_000, "writers: no termination");
+                let idx = if oi < order.len() {
+                    oi += 1;
+                    order[oi - 1] as usize
+                } else {
+                    // round-robin over all writers and the request's read side
+                    rr += 1;
+                    let k = (rr - 1) % (n + 1);
+                    if k == n { 99 } else { k }
+                };
+                let code = if idx == 99 {
+                    let mut buf = [0u8; 4];
+                    match Pin::new(&mut *req).poll_read(cx, &mut buf) {
+                        Poll::Pending => 0,
+                        Poll::Ready(Ok(_)) => 1,
+                        Poll::Ready(Err(_)) => 3,
+                    }
+                } else if idx < n {
+                    match futs[idx].as_mut() {
+                        None => 2,
+                        Some(f) => match f.as_mut().poll(cx) {
+                            Poll::Pending => 0,
+                            Poll::Ready(Ok(())) => {
+                                futs[idx] = None;
+                                1
+                            },
+                            Poll::Ready(Err(e)) => {
+                                futs[idx] = None;
+                                err = Some(e);
+                                3
+                            },
+                        },
+                    }
+                } else {
+                    2
+                };
+                steps.lock().expect("steps").push(vec![idx as u128, code]);
+                cx.waker().wake_by_ref();
+                Poll::Pending
+            }).await;
+            drop(futs);
+            match err {
+                Some(e) => Err(e),
+                None => Ok(ExitStatus::SUCCESS),
+            }
+        })
+    }
+}
